@@ -75,7 +75,7 @@ func muxGen(focus string) func(rng *rand.Rand, conf string, idx int) any {
 					continue
 				}
 				st := MuxStream{ID: id, Dir: dir}
-				for n, cnt := 0, 1+rng.Intn(6); n < cnt; n++ {
+				for n, cnt := 0, 1+rng.Intn(6*deep(conf)); n < cnt; n++ {
 					sz := pick(rng, muxSizes)
 					if rng.Intn(3) == 0 {
 						sz = rng.Intn(300)
@@ -131,7 +131,7 @@ func muxGen(focus string) func(rng *rand.Rand, conf string, idx int) any {
 			}
 			nf := 1 + rng.Intn(2)
 			for i := 0; i < nf; i++ {
-				f := MuxFault{Kind: pick(rng, []string{"cut", "cut", "kill", "close-mux", "close-mux", "close-conn", "overflow", "stall-close", "partial-write"}), End: rng.Intn(2)}
+				f := MuxFault{Kind: pick(rng, []string{"cut", "cut", "kill", "close-mux", "close-mux", "close-conn", "overflow", "stall-close", "partial-write", "freeze-close", "freeze-close"}), End: rng.Intn(2)}
 				f.After = rng.Intn(total + 1)
 				f.ID = pick(rng, w.IDs)
 				f.Off = rng.Intn(40 + 30*total)
@@ -268,6 +268,8 @@ func muxRun(t *testing.T, wl any, sc SchedCfg) *Result {
 			}
 		}
 		failed := false // a mux-level failure was injected
+		frozenClose := false
+		_ = frozenClose
 		for _, st := range w.Streams {
 			st := st
 			sd := &muxSide{}
@@ -410,6 +412,26 @@ func muxRun(t *testing.T, wl any, sc SchedCfg) *Result {
 					c = tb
 				}
 				c.FailWriteAt(f.Off)
+			case "freeze-close":
+				// the direction written by end f.End goes silent after f.Off delivered bytes (possibly in the
+				// middle of a frame) without any end of stream; once nothing else happens the RECEIVING end is
+				// closed locally: that Close, and everything blocked on that end, must still return
+				c := ta
+				if f.End == 1 {
+					c = tb
+				}
+				c.FreezeWrite(f.Off)
+				recv := 1 - f.End
+				e.S.Add(&simItem{Key: fmt.Sprintf("fault:%d:close-frozen", i), Owner: "fault", Last: true,
+					Fire: func(int) {
+						e.S.Probe("C11.fault.freeze-close")
+						failed = true
+						frozenClose = true
+						for n := 0; n < f.N; n++ {
+							n := n
+							e.Task(fmt.Sprintf("closer-%d-%d", i, n), func() { muxes[recv].Close() })
+						}
+					}})
 			case "stall-close":
 				// end f.End's peer stops draining: its trunk writes block; later that end is closed
 				c := ta
@@ -740,6 +762,9 @@ func init() {
 	register(&Property{
 		ID: "C11", Gen: muxGen("C11"), New: func() any { return &MuxW{} }, Run: muxRun, Shrink: muxShrink,
 		Confs: func(tier string) []Conf {
+			if tier == "thorough" {
+				return []Conf{{Name: "grid", Grid: 440}, {Name: "small", Weight: 30}, {Name: "big", Weight: 1}, {Name: "deep", Weight: 6}}
+			}
 			return []Conf{{Name: "grid", Grid: 440}, {Name: "small", Weight: 30}, {Name: "big", Weight: 1}}
 		},
 		Components: h2Components,
